@@ -77,6 +77,44 @@ def reader_reads(p):
     return out
 
 
+def read_request(p, ev):
+    """size requested by the read event (direct read or Unblock1014.read call) as a Lin, or None."""
+    if ev.kind == 'read':
+        return Lin.of(ev.data['size']) if ev.data['size'] is not None else None
+    # leave event of Unblock1014.read: find matching enter
+    for e in reversed(p.events):
+        if e.seq < ev.seq and e.kind == 'enter' and e.data['callee'] == 'mciipm.Unblock1014.read':
+            a = e.data['args']
+            if a and isinstance(a[0], IntV):
+                return a[0].lin
+            return None
+    return None
+
+
+NOT_DIRECT = ('the reader does not fetch the length prefix and the record with one read of exactly that size each (a read-ahead '
+              'or buffering reader): the bytes read during a call are not the record, which is outside the model of this rule')
+
+
+def direct_framing(p, reads=None):
+    """The call frames its record with reads of exactly the sizes it needs: a 4-byte prefix read and then at most one read of
+    the decoded length.  Rules that equate `the bytes read during this call` with `the record` only speak about such readers;
+    one that reads ahead and cuts records out of a buffer carried from call to call is reported as outside the model."""
+    reads = reader_reads(p) if reads is None else reads
+    if not reads:
+        return True
+    if len(reads) > 2:
+        return False
+    r0 = read_request(p, reads[0][0])
+    if r0 is None or p.store.decide_eq0(r0 - 4) is not True:
+        return False
+    if len(reads) == 2:
+        u, _ue = unpacked_length(p)
+        r1 = read_request(p, reads[1][0])
+        if u is None or r1 is None or p.store.decide_eq0(r1 - u.lin) is not True:
+            return False
+    return True
+
+
 def concat_all(it, seqs):
     out = SeqV('bytes', ())
     for s in seqs:
